@@ -21,17 +21,32 @@ Streams (both over every public class found by reflection over the cfdm namespac
                  again;
                * the primitive heap writes of the call (cells of the receiver's object graph whose
                  contents changed), which the Lean driver replays on the model's copy: the model says
-                 whether the other object's fingerprint can change and whether every write went through a
-                 cell that copies re-create.
+                 whether the other object's fingerprint can change, whether every write went through a
+                 cell that copies re-create, and whether every write is an instance of an in-place
+                 mutation site that the translator (harness/heapsites_C04.py, run by pre()) extracted
+                 from the sources into lean/Cfdm/Generated/HeapSites.lean (expl=ok).
+             Arguments of in-place-switchable methods come in three styles: valid, invalid (the call is
+             expected to raise, possibly half-way: the receiver must be unchanged all the same) and valid but
+             unusual (explicit axes= differing from / permuting the current data axes, square data with swapped
+             axes, data-less template receivers).
+
+  C04.share also covers: pickle round trips (nothing may be shared; fingerprints equal; mutation of either side
+             leaves the other unchanged), subspaces x[indices] (the subspaced data may not share the stored buffer;
+             mutual mutation check), and — compared EXACTLY, their intended sharing being a specification —
+             Constructs.shallow_copy(), Domain.fromconstructs(c).constructs (a view) and Field.domain.  Six cases in
+             ten start from an object that was given non-empty nested dictionaries (global / group attributes),
+             array-valued properties / parameters / qualifiers and a mutable value under `custom`.
 """
 import contextlib
 import copy as _copy
 import inspect
 import json
 import os
+import pickle
 
 from .. import fw
 from .. import fingerprint_C04 as F
+from .. import heapsites_C04 as S
 from .. import heapwalk_C04 as H
 from .. import methods_C04 as M
 from ..gen import objects_C04 as G
@@ -47,13 +62,30 @@ REQUIRED = [
     "C04_poke_counterexample",
     "C04_old_apply_masking_counterexample",
     "C04_old_set_data_counterexample",
+    "C04_wf_needed",
+    "C04_code_sites_ok",
+    "C04_code_sites_disciplined",
+    "C04_copy_independent_code",
+    "C04_site_check_rejects",
+    "C04_site_check_needed",
+    "C04_inplace_off_raising",
+    "C04_axes_via_self_counterexample",
+    "C04_inplace_off_result_independent",
+    "C04_getitem_independent",
+    "C04_pickle_independent",
+    "C04_view_spec",
+    "C04_view_in_sync",
+    "C04_shallow_copy_membership_independent",
+    "C04_shallow_copy_shares_constructs",
 ]
 BUDGET = {"quick": 9000, "thorough": 150000}
 QUICK_JOBS = 8
 TIME_LIMIT = {"quick": 150, "thorough": 1350}
 RULE = (
     "a case is nontrivial when the object has at least one mutable cell besides itself and (method stream) the call "
-    "returned normally or changed the receiver; distinct = distinct (recipe, operation, argument seed, mode) tuples"
+    "returned normally, changed the receiver, or was made with the in-place switch off (a raising call with the switch "
+    "off is a case of 'receiver unchanged after a raising call'); (share stream) the way of copying was accepted; "
+    "distinct = distinct (recipe, operation, argument seed, mode, argument style) tuples"
 )
 ASSUMPTIONS = [
     "scope = every public class of the cfdm namespace except the ones listed with reasons in harness/gen/objects_C04.py "
@@ -71,6 +103,15 @@ ASSUMPTIONS = [
     "predicts these cells as shared and proves that no operation of the method table writes through them",
     "the Lean theorems hold for trees in which no cell sits both at a re-created and at a handed-over position (wf=1, "
     "reported per instance by the driver); the count of instances outside this hypothesis is in the evidence",
+    "views (Field.domain, Domain.fromconstructs, Constructs.shallow_copy) are not copies: their intended sharing is the "
+    "specification (model: viewT / domainOfT / shallowCopyTbl) and the implementation must share exactly those cells",
+    "the table of in-place mutation sites (lean/Cfdm/Generated/HeapSites.lean) is extracted from the sources by "
+    "harness/heapsites_C04.py: statements that mutate a container fetched from the storage of self (or of an alias of "
+    "self, or an attribute of an object that an accessor of self hands out); a private method counts for a class family "
+    "when it is reachable from a public operation of a class of the family through calls on self, or is invoked "
+    "somewhere on another object (not for NumpyArray/SparseArray, whose copies share `_components`: nothing calls a "
+    "private method on them from outside); every primitive write observed by the method stream must be an instance of "
+    "a site of that table (expl=ok), which polices the translator's completeness on every run",
 ]
 
 _dn = open(os.devnull, "w")
@@ -78,6 +119,42 @@ _dn = open(os.devnull, "w")
 
 def cfdm():
     return G.cfdm()
+
+
+# --------------------------------------------------------------------------- the table of in-place mutation sites
+_sites = {}
+
+
+def site_rows():
+    """(rows, classification, statistics) extracted from the sources of the cfdm that is under test"""
+    if not _sites:
+        C = cfdm()
+        repo = os.path.dirname(os.path.dirname(os.path.abspath(C.__file__)))
+        try:
+            sites, funcs, ext = S.scan_repo(repo)
+        except SyntaxError as e:
+            raise fw.HarnessError(f"cannot parse the sources of cfdm: {e}")
+        classes = [getattr(C, n) for n in G.in_scope_classes()]
+
+        def fam(K):
+            try:
+                return H.family(K.__new__(K))
+            except Exception:
+                return "o"
+        rows, reach = S.attribute(repo, sites, funcs, ext, classes, fam)
+        _sites.update(rows=rows, cls=S.classification(rows), statements=len(sites), repo=repo,
+                      source_writes=[r for r in rows if r[1].startswith("source:")])
+    return _sites
+
+
+def pre():
+    """regenerate lean/Cfdm/Generated/HeapSites.lean from the sources (theorem C04_code_sites_ok is then re-checked
+    by the build)"""
+    bad = S.selftest()
+    if bad:
+        raise fw.HarnessError(bad)
+    info = site_rows()
+    fw.write_if_changed(fw.LEAN / "Cfdm" / "Generated" / "HeapSites.lean", S.lean_table(info["rows"], "$CFDM_REPO (default /repo)"))
 
 
 # --------------------------------------------------------------------------- operation table by reflection
@@ -100,6 +177,26 @@ def op_table():
     return _table
 
 
+FOCUS_NAMES = {"__getitem__", "__setitem__", "set_data", "del_data", "set_construct", "del_construct", "set_data_axes",
+               "nc_set_global_attribute", "nc_set_global_attributes", "nc_clear_global_attributes", "nc_set_group_attribute",
+               "nc_set_group_attributes", "nc_clear_group_attributes", "set_bounds", "del_bounds", "set_interior_ring",
+               "set_properties", "set_property", "del_property", "clear_properties", "set_parameters", "set_qualifier",
+               "set_coordinates", "nc_set_hdf5_chunksizes", "replace", "get_domain", "domain", "shallow_copy", "copy"}
+FOCUS_CLASSES = {"Field", "Domain", "Data", "AuxiliaryCoordinate", "DimensionCoordinate", "DomainAncillary", "Bounds",
+                 "Constructs", "CellMethod", "CoordinateReference", "FieldAncillary", "CellMeasure"}
+_focus = None
+
+
+def focus_ops():
+    """the operations behind the anchored mechanisms: every in-place-switchable method of every class, and the
+    subspacing / assignment / component-replacing / netCDF-attribute operations of the main classes"""
+    global _focus
+    if _focus is None:
+        _focus = [t for t in op_table() if t[1] not in M.UNCALLABLE and
+                  (t[2] == "switch" or (t[0] in FOCUS_CLASSES and t[1] in FOCUS_NAMES))]
+    return _focus
+
+
 def copy_modes(K):
     """which ways of copying the class offers"""
     out = ["copy", "copy", "deepcopy"]
@@ -111,10 +208,36 @@ def copy_modes(K):
         out.append("nodata")
     if "array" in ps:
         out.append("noarray")
+    out.append("pickle")
+    try:
+        if "source" in inspect.signature(K.__init__).parameters:
+            out.append("ctor")      # K(source=x): what copy() does for most classes, spelled by the user
+    except (TypeError, ValueError):
+        pass
+    C = cfdm()
+    if issubclass(K, C.Constructs):
+        out += ["shallow", "shallow", "view", "view"]
+    if issubclass(K, C.Field):
+        out += ["domain", "domain"]
+    if any("__getitem__" in vars(B) for B in K.__mro__ if B is not object) and not issubclass(K, C.Constructs):
+        out += ["getitem", "getitem"]
     return out
 
 
-def do_copy(x, how):
+def do_copy(x, how, rng=None):
+    if how == "pickle":
+        return pickle.loads(pickle.dumps(x))
+    if how == "ctor":
+        return type(x)(source=x)
+    if how == "shallow":
+        return x.shallow_copy()
+    if how == "view":
+        # the public route to a view of a collection
+        return cfdm().Domain.fromconstructs(x).constructs
+    if how == "domain":
+        return x.domain
+    if how == "getitem":
+        return x[M._index(x, rng or fw.rng_for(0, "C04getitem"))]
     if how == "copy":
         return x.copy()
     if how == "deepcopy":
@@ -128,13 +251,16 @@ def do_copy(x, how):
 
 # --------------------------------------------------------------------------- generation
 def mk_share(p):
-    return fw.Case("C04.share", p, line=None, tags=("cls:" + p["cls"], "how:" + p["how"], "src:" + p["recipe"]["src"]))
+    return fw.Case("C04.share", p, line=None, tags=("cls:" + p["cls"], "how:" + p["how"], "src:" + p["recipe"]["src"]) +
+                   (("deco",) if p.get("deco") else ()))
 
 
 def mk_meth(p):
     return fw.Case("C04.meth", p, line=None,
                    tags=("cls:" + p["cls"], "mode:" + p["mode"], "kind:" + p["kind"], "src:" + p["recipe"]["src"],
-                         "how:" + p["how"], "history:" + str(1 + len(p.get("then", ())))))
+                         "how:" + p["how"], "history:" + str(1 + len(p.get("then", ()))),
+                         "args:" + p.get("astyle", "valid")) + tuple("prep:" + q for q in p.get("prep", ())) +
+                   (("deco",) if p.get("deco") else ()))
 
 
 def from_payload(stream, payload):
@@ -164,18 +290,81 @@ def gen(rng, tier, n):
             r = G.recipe_for(cn, rng)
             if r is not None:
                 made += 1
-                yield mk_meth(dict(recipe=r, cls=cn, op=name, kind=kind, aseed=rng.randrange(1 << 30), mode="C",
-                                   how=rng.choice(["copy", "copy", "deepcopy"])))
+                p = dict(recipe=r, cls=cn, op=name, kind=kind, aseed=rng.randrange(1 << 30), mode="C",
+                         how=rng.choice(["copy", "copy", "deepcopy"]))
+                # half of these: invalid arguments (the call raises, possibly half-way) or valid but unusual ones;
+                # sometimes on a data-less template
+                u = rng.random()
+                if u < 0.3:
+                    p["astyle"] = "invalid"
+                elif u < 0.5:
+                    p["astyle"] = "unusual"
+                if name in ("set_data", "insert_dimension", "squeeze", "transpose", "apply_masking") and rng.random() < 0.12:
+                    p["prep"] = ["deldata"]
+                yield mk_meth(p)
             continue
         # one sharing-graph case in eight, the rest walk the operation table cyclically from a random start
         if turn % 8 == 0:
-            cn = rng.choice(classes)
+            # every fourth of them: a view / shallow copy / subspace / pickle of a field or a collection
+            if turn % 32 == 0:
+                cn = rng.choice(["Field", "Field", "Constructs", "Constructs", "Domain", "Data", "AuxiliaryCoordinate",
+                                 "DimensionCoordinate"])
+                hows = [h for h in copy_modes(getattr(C, cn)) if h in ("domain", "view", "shallow", "getitem", "pickle")]
+            elif turn % 32 == 16:
+                # the classes that store nested dictionaries in their netCDF names (global / group attributes)
+                cn = rng.choice(["Field", "Field", "Domain"])
+                hows = [h for h in copy_modes(getattr(C, cn)) if h in ("copy", "deepcopy", "ctor", "nodata")]
+            else:
+                cn = rng.choice(classes)
+                hows = copy_modes(getattr(C, cn))
             r = G.recipe_for(cn, rng)
             if r is not None:
-                how = rng.choice(copy_modes(getattr(C, cn)))
+                how = rng.choice(hows)
                 made += 1
-                yield mk_share(dict(recipe=r, cls=cn, how=how))
+                p = dict(recipe=r, cls=cn, how=how, iseed=rng.randrange(1 << 30))
+                if rng.random() < 0.6 or turn % 32 == 16:
+                    p["deco"] = True     # start from an object with NON-EMPTY nested dictionaries / mutable values
+                yield mk_share(p)
                 continue
+        # one case in 32: Field.set_data / transpose / squeeze / insert_dimension with the switch off and explicit,
+        # unusual or invalid axes, on a square, a data-less or an ordinary receiver
+        if turn % 32 == 13:
+            name = rng.choice(["set_data", "set_data", "set_data", "transpose", "squeeze", "insert_dimension"])
+            kind = "switch"
+            v = rng.random()
+            if v < 0.45:
+                r = dict(src="sq", seed=rng.randrange(1 << 40), pick=0)
+            else:
+                r = G.recipe_for("Field", rng)
+            if r is not None:
+                p = dict(recipe=r, cls="Field", op=name, kind=kind, aseed=rng.randrange(1 << 30), mode="C",
+                         how=rng.choice(["copy", "copy", "deepcopy"]), astyle=rng.choice(["unusual", "unusual", "invalid"]))
+                if rng.random() < 0.3:
+                    p["prep"] = ["deldata"]
+                made += 1
+                yield mk_meth(p)
+                continue
+        # one case in eight: an operation of the focus list (the anchored mechanisms), any mode, any argument style
+        if turn % 8 == 5:
+            foc = focus_ops()
+            if foc:
+                cn, name, kind = rng.choice(foc)
+                r = G.recipe_for(cn, rng)
+                if r is not None:
+                    mode = rng.choice(["A", "B", "C"] if kind == "switch" else ["A", "B"])
+                    p = dict(recipe=r, cls=cn, op=name, kind=kind, aseed=rng.randrange(1 << 30), mode=mode,
+                             how=rng.choice(["copy", "copy", "deepcopy"]))
+                    if kind == "switch":
+                        u = rng.random()
+                        if u < 0.25:
+                            p["astyle"] = "invalid"
+                        elif u < 0.5:
+                            p["astyle"] = "unusual"
+                    if rng.random() < 0.5:
+                        p["deco"] = True
+                    made += 1
+                    yield mk_meth(p)
+                    continue
         cn, name, kind = table[order[(start + j) % len(order)]]
         j += 1
         if name in M.UNCALLABLE:
@@ -188,7 +377,7 @@ def gen(rng, tier, n):
             modes = ["A", "B", "C", "C", "C"]
         mode = rng.choice(modes)
         hows = ["copy", "copy", "copy", "deepcopy"]
-        extra = [h for h in copy_modes(getattr(C, cn)) if h in ("nodata", "noarray")]
+        extra = [h for h in copy_modes(getattr(C, cn)) if h in ("nodata", "noarray", "ctor", "pickle")]
         how = rng.choice(hows if mode == "C" else hows + extra)
         p = dict(recipe=r, cls=cn, op=name, kind=kind, aseed=rng.randrange(1 << 30), mode=mode, how=how)
         if mode != "C" and rng.random() < 0.3:
@@ -214,29 +403,144 @@ def _shared_idx(gx, gy):
     return sorted(idx for ident, idx in gx.by_id.items() if ident in gy.by_id)
 
 
+def force_nested(x, rng):
+    """give x non-empty nested dictionaries and mutable values wherever its class stores some: global and group
+    attributes of the netCDF names, array / list valued properties, parameters and qualifiers, a value under
+    `custom`; for a field also on some of its constructs"""
+    C = cfdm()
+    np = __import__("numpy")
+
+    def one(o, deep=True):
+        def tryit(name, *a):
+            fn = getattr(o, name, None)
+            if fn is not None:
+                try:
+                    fn(*a)
+                    return True
+                except Exception:
+                    pass
+            return False
+        tryit("nc_set_global_attributes", {"history": None, "flags": np.array([1, 2]), "comment": "global comment"})
+        tryit("nc_set_group_attributes", {"institution": "x", "vec": [1, 2]})
+        if rng.random() < 0.7:
+            tryit("set_property", "flag_values", np.array([1, 2, 4], dtype="i4"))
+        if rng.random() < 0.4:
+            tryit("set_property", "valid_range", [0.0, 10.0])
+        if rng.random() < 0.5:
+            tryit("set_parameter", "towgs84", np.array([1.0, 2.0]))
+        if rng.random() < 0.5:
+            tryit("set_qualifier", "interval", [C.Data(1, "hour")])
+        if rng.random() < 0.25 and isinstance(o, C.core.abstract.Container):
+            try:
+                o._custom["verif_cache"] = [1, 2]
+            except Exception:
+                pass
+    one(x)
+    if hasattr(x, "constructs") and hasattr(x, "domain_axes"):
+        for k, cc in sorted(x.constructs.todict().items()):
+            if rng.random() < 0.35:
+                one(cc)
+    elif isinstance(x, C.Constructs):
+        for k, cc in sorted(x.todict().items()):
+            if rng.random() < 0.35:
+                one(cc)
+    return x
+
+
 def impl(c):
     p = c.payload
     c.extra = {}
     label, x = G.build(p["recipe"])
     if label != p["cls"]:
         raise fw.HarnessError(f"recipe built a {label}, expected {p['cls']}")
+    if p.get("deco"):
+        force_nested(x, fw.rng_for(p.get("iseed", p.get("aseed", 0)), "C04deco"))
     if c.stream == "C04.share":
         return impl_share(c, x)
     return impl_meth(c, x)
 
 
+EXACT_HOWS = ("shallow", "view", "domain")      # views: the intended sharing is a specification, compared both ways
+MODEL_HOW = {"deepcopy": "copy", "ctor": "copy"}
+
+
+def _nested_tags(gx):
+    """does the object hold non-empty nested dictionaries in its netCDF names (global / group attributes), mutable
+    property values, values under `custom`?  (what a shallow copy of those components would alias)"""
+    out = set()
+    for cell in gx.cells:
+        pth = cell.path or ""
+        if cell.kind == "D" and cell.kids and pth.endswith(("/netcdf/global_attributes", "/netcdf/group_attributes")):
+            out.add("nested:netcdf-attributes")
+        elif "/properties/" in pth and cell.kind in "bLDM":
+            out.add("nested:mutable-property-value")
+        elif "/custom/" in pth:
+            out.add("nested:custom-value")
+        elif "/parameters/" in pth and cell.kind in "bLDMO":
+            out.add("nested:mutable-parameter-value")
+        elif "/qualifiers/" in pth and cell.kind in "bLDMO":
+            out.add("nested:mutable-qualifier-value")
+    return tuple(sorted(out))
+
+
 def impl_share(c, x):
     p = c.payload
+    C = cfdm()
     _settle(x)
-    y = do_copy(x, p["how"])
+    how = p["how"]
+    fx0 = F.fp(x) if how in ("getitem", "pickle", "domain", "view", "shallow") else None
+    status, y = _call(lambda: do_copy(x, how, fw.rng_for(p.get("iseed", 0), "C04getitem")))
     gx = H.Graph(x)
+    c.extra["cells"] = len(gx.cells)
+    c.tags = c.tags + _nested_tags(gx)
+    mhow = MODEL_HOW.get(how, how)
+    if how == "getitem" and not (isinstance(x, C.core.Data) or hasattr(x, "get_data")):
+        mhow = "pickle"     # an array class hands out a numpy array: it must not be a view of the stored one
+    elif how == "getitem" and not isinstance(x, C.core.Data) and \
+            M._index(x, fw.rng_for(p.get("iseed", 0), "C04getitem")) is Ellipsis:
+        mhow = "copy"       # `x[...]` of a construct or field is documented to be `x.copy()`
+    c.line = f"C04.share how={mhow} tree={gx.text()}"
+    c.nontrivial = len(gx.cells) > 1 and status == "ok"
+    if status != "ok":
+        # the way of copying is refused for this object (not picklable, index refused, …): nothing to compare
+        c.tags = c.tags + ("status:" + status,)
+        c.line = None
+        c.extra["skipped"] = status
+        return "skipped:" + status
     gy = H.Graph(y)
     sh = _shared_idx(gx, gy)
-    how = p["how"] if p["how"] in ("nodata", "noarray") else "copy"
-    c.line = f"C04.share how={how} tree={gx.text()}"
-    c.nontrivial = len(gx.cells) > 1
-    c.extra["cells"] = len(gx.cells)
     c.extra["paths"] = {i: (gx.cells[i].path or "/", gx.cells[i].kind, gx.cells[i].cls) for i in sh}
+    fails = []
+    if fx0 is not None:
+        # making the copy / view / subspace must not change the source; and (pickle, getitem) the result is independent
+        fx1 = F.fp(x)
+        if fx0 != fx1:
+            fails.append(dict(kind="source-changed-by-" + how, diff=F.diff(fx0, fx1)))
+        if how in ("getitem", "pickle") and hasattr(y, "copy") and not isinstance(y, __import__("numpy").ndarray):
+            arng = fw.rng_for(p.get("iseed", 0), "C04follow")
+            fy0 = _settle(y)
+            done = _follow_up(y, arng)
+            fx2 = F.fp(x)
+            if fx1 != fx2:
+                fails.append(dict(kind=how + "-result-aliases-source", after=done, diff=F.diff(fx1, fx2)))
+            if how == "pickle" and fy0 is not None and fy0 != fx1:
+                fails.append(dict(kind="pickle-differs", diff=F.diff(fx1, fy0)))
+            fy1 = _settle(y)
+            done2 = _follow_up(x, arng)
+            fy2 = _settle(y)
+            if fy1 is not None and fy1 != fy2:
+                fails.append(dict(kind=how + "-source-aliases-result", after=done2, diff=F.diff(fy1, fy2)))
+        elif how == "getitem" and isinstance(y, __import__("numpy").ndarray) and y.size:
+            try:
+                y[...] = 0 if y.dtype.kind in "fiub" else y.flat[0]
+                if __import__("numpy").ma.isMA(y):
+                    y[...] = __import__("numpy").ma.masked
+            except Exception:
+                pass
+            fx2 = F.fp(x)
+            if fx1 != fx2:
+                fails.append(dict(kind="getitem-result-aliases-source", after=["array[...]=0"], diff=F.diff(fx1, fx2)))
+    c.extra["fails"] = fails
     return "shared=" + fw.fmt_list(sh)
 
 
@@ -300,8 +604,24 @@ def impl_meth(c, x):
     mode = p["mode"]
     name, kind = p["op"], p["kind"]
     fails = []
+    for q in p.get("prep", ()):
+        if q == "deldata" and hasattr(x, "del_data"):
+            try:
+                x.del_data(None)
+            except Exception:
+                pass
+    style = p.get("astyle", "valid")
     _settle(x)
-    y = do_copy(x, p["how"])
+    try:
+        y = do_copy(x, p["how"])
+    except fw.HarnessError:
+        raise
+    except Exception:
+        if p["how"] not in ("pickle", "ctor"):
+            raise
+        # this object cannot be pickled / rebuilt from source= (counted): use the plain copy
+        y = x.copy()
+        c.tags = c.tags + ("how-fallback:" + p["how"],)
     fy_before = _settle(y)
     arng = fw.rng_for(p["aseed"], "C04args")
     if mode == "A":
@@ -314,7 +634,7 @@ def impl_meth(c, x):
         inplace = False if mode == "C" else (True if arng.random() < 0.7 else None)
     argfail = False
     try:
-        mc = M.make_call(recv, name, kind, arng, other=other if use_other else None, inplace=inplace)
+        mc = M.make_call(recv, name, kind, arng, other=other if use_other else None, inplace=inplace, style=style)
     except fw.HarnessError:
         raise
     except Exception:
@@ -328,8 +648,25 @@ def impl_meth(c, x):
         c.tags = c.tags + ("status:" + st, "op:" + p["cls"] + "." + name + ":" + st)
         c.nontrivial = False
         c.line = f"C04.meth how=copy who={who} tree={tree} writes=[]"
-        return "other=same disc=ok"
+        return "other=same disc=ok expl=ok"
     call, desc = mc
+    if getattr(call, "style", "valid") != style:
+        c.tags = tuple(t for t in c.tags if not t.startswith("args:")) + ("args:valid",)
+    if name == "set_data" and isinstance(recv, C.Field):
+        # which kind of receiver / axes argument is this? (evidence: data-less templates, square data, permuted axes)
+        try:
+            cur = list(recv.get_data_axes(default=()))
+            shp = tuple(recv.data.shape) if recv.has_data() else None
+            t = ["setdata:" + ("dataless" if shp is None else ("square" if len(set(shp)) < len(shp) else "nonsquare"))]
+            given = getattr(call, "kw", {}).get("axes")
+            if given is None:
+                t.append("setdata:axes-omitted")
+            else:
+                given = list(given)
+                t.append("setdata:axes-" + ("same" if given == cur else ("permuted" if sorted(given) == sorted(cur) else "different")))
+            c.tags = c.tags + tuple(t)
+        except Exception:
+            pass
     fo0 = F.fp(other)
     fr0 = F.fp(recv) if mode == "C" else None
     g0 = gx if recv is x else H.Graph(recv)
@@ -359,7 +696,7 @@ def impl_meth(c, x):
         # the in-place form on the copy, same arguments
         arng2 = fw.rng_for(p["aseed"], "C04args")
         arng2.random()
-        mc2 = M.make_call(y, name, kind, arng2, other=None, inplace=True)
+        mc2 = M.make_call(y, name, kind, arng2, other=None, inplace=True, style=style)
         status2, res2 = _call(mc2[0])
         if status.split(":")[0] != status2.split(":")[0]:
             fails.append(dict(kind="status-differs", off=status, on=status2))
@@ -382,13 +719,16 @@ def impl_meth(c, x):
                 fr3 = F.fp(recv)
                 if fr2 != fr3:
                     fails.append(dict(kind="result-aliases-receiver", after=done, diff=F.diff(fr2, fr3)))
+    if mode == "C" and status != "ok":
+        # a raising call with the switch off: the receiver's fingerprint was compared all the same
+        c.tags = c.tags + ("offraise:" + p["cls"] + "." + name,)
     c.extra.update(status=status, desc=desc, fails=fails, nwrites=len(writes))
     c.tags = c.tags + ("status:" + status.split(":")[0], "op:" + p["cls"] + "." + name + ":" + status.split(":")[0],
                        "receiver:" + ("written" if recv_changed else "untouched"))
-    c.nontrivial = len(gx.cells) > 1 and (status == "ok" or recv_changed)
+    c.nontrivial = len(gx.cells) > 1 and (status == "ok" or recv_changed or mode == "C")
     how = p["how"] if p["how"] in ("nodata", "noarray") else "copy"
     c.line = f"C04.meth how={how} who={who} tree={tree} writes=[{';'.join(writes)}]"
-    return f"other={'same' if other_same else 'changed'} disc=ok"
+    return f"other={'same' if other_same else 'changed'} disc=ok expl=ok"
 
 
 # --------------------------------------------------------------------------- agreement and oracle
@@ -407,6 +747,8 @@ def agree(c):
             return False
         if b[2] is not None and isinstance(c.extra, dict) and int(b[2]) != c.extra.get("cells"):
             return False
+        if c.payload["how"] in EXACT_HOWS:
+            return a[0] == b[0]
         return a[0] <= b[0]
     return c.impl_out == c.model_out
 
@@ -420,7 +762,11 @@ def oracle(c):
         b = _parse_share(c.model_out)
         if b is not None and b[1] == "0":
             c.tags = c.tags + ("outside-wf-hypothesis",)
-        return None
+        fails = c.extra.get("fails") or []
+        if not fails:
+            return None
+        f = fails[0]
+        return f"{c.payload['cls']} {c.payload['how']}: {f['kind']}: " + "; ".join(str(d) for d in (f.get("diff") or []))[:600]
     fails = c.extra.get("fails") or []
     if not fails:
         return None
@@ -433,6 +779,9 @@ S_SETDATA = "set_data-inplace-false:result-built-from-copy-without-data-loses-ne
 
 
 def classify(c):
+    if isinstance(c.extra, dict) and c.stream == "C04.share":
+        fails = c.extra.get("fails") or []
+        return f"{fails[0]['kind']}:{c.payload['cls']}" if fails else None
     if not isinstance(c.extra, dict) or c.stream != "C04.meth":
         return None
     fails = c.extra.get("fails") or []
@@ -493,6 +842,10 @@ def extra_coverage(run):
         if k.startswith("has:") or k.startswith("eff:"):
             tag, name, comp = k.split(":")
             (has if tag == "has" else eff).setdefault(name, {})[comp] = run.dist.pop(k)
+    offraise = {}
+    for k in list(run.dist):
+        if k.startswith("offraise:"):
+            offraise[k.split(":", 1)[1]] = run.dist.pop(k)
     effective = {}
     for name in sorted(has):
         ch = eff.get(name, {})
@@ -505,7 +858,18 @@ def extra_coverage(run):
     never_ok = sorted(n for n in ops if "ok" not in ops[n])
     C = cfdm()
     no_instance = sorted(cn for cn in G.in_scope_classes() if cn in G._no_instance)
+    info = site_rows()
     return dict(
+        inplace_mutation_sites=dict(
+            source=info["repo"],
+            statements_found=info["statements"],
+            table_entries=len(info["rows"]),
+            constructor_writes_into_its_source=[list(r[:6]) for r in info["source_writes"]],
+            stored_values=info["cls"],
+            note="per class family and stored value: how the code writes it (only replaced on write = not listed; "
+                 "'entries set/removed in place' needs a copy that re-creates the container itself; 'nested values "
+                 "mutated in place' needs a deep copy) — theorem C04_code_sites_ok checks the copy table against this",
+        ),
         public_classes=len(G.public_classes()),
         classes_in_scope=len(G.in_scope_classes()),
         classes_out_of_scope=G.OUT_OF_SCOPE,
@@ -516,6 +880,11 @@ def extra_coverage(run):
         uncallable_operations=dict(size=len(M.UNCALLABLE), names=M.UNCALLABLE),
         inplace_switchable_operations=len(switch_ops),
         inplace_switchable_never_run_in_place_this_run=[n for n in switch_ops if n not in effective],
+        receiver_unchanged_after_raising_call=dict(
+            note="mode-C cases (switch off) in which the call raised — invalid or unusual arguments, data-less receivers —; "
+                 "the receiver's full fingerprint is compared before/after in every one of them",
+            cases=sum(offraise.values()), operations=len(offraise),
+            switchable_operations_never_raising_this_run=[n for n in switch_ops if n not in offraise][:60]),
         inplace_switchable_without_any_effect_this_run=[n for n in effective if not effective[n]["changed"]],
         effective_coverage_note="per in-place-switchable (class, method), over the mode-C cases in which both forms returned: "
                                 "`changed` = nested components of the receiver that the in-place form changed at least once "
